@@ -13,6 +13,7 @@
 import BroodModel.Lemmas.Alloc
 import BroodModel.Lemmas.AllocPres
 import BroodModel.Lemmas.Entity
+import BroodModel.Lemmas.CloneFromDrops
 
 namespace Brood
 open Alloc
@@ -297,6 +298,22 @@ theorem C02_world_never_reissued {w w1 w2 w3 : World} {shape shape' : List Nat} 
   have := allocate_fresh hg2 ha'
   intro e'; exact this (by simp [e'])
 
+/-- **Not confused across copies**: an identifier that is dead in a world is dead in its clone
+and in any world that `clone_from`s it (a copy never resurrects an identifier), and stays dead
+there under every later history. -/
+theorem C02_world_dead_in_copies {w c c' : World} (hi : Inv w) {x : Ident} (d : Dead w.alloc x)
+    {e next : Nat} (h : w.clone e next = .ok c) (ops : List Op) (hr : run c ops = .ok c') :
+    c.entity x = none ∧ c'.entity x = none := by
+  have hd := clone_keeps_dead hi h d
+  obtain ⟨c0, h0, hi0, _⟩ := clone_spec hi e next
+  rw [h] at h0; cases h0
+  have hd' : Dead c'.alloc x := run_apres (apres_dead x) ops hi0 hd hr
+  exact ⟨entity_none_of_dead hd.not_live, entity_none_of_dead hd'.not_live⟩
+
+theorem C02_world_dead_after_clone_from {d s fin : World} {drops : List Val} {e : Nat} {x : Ident}
+    (hd : Dead s.alloc x) (h : World.cloneFrom d s e = .ok (fin, drops)) : fin.entity x = none :=
+  entity_none_of_dead (cloneFrom_keeps_dead h hd).not_live
+
 /-- **Stable while live**: operations aimed at other identifiers never change what a live
 identifier resolves to (the frame halves of the C01 per-operation theorems, collected). -/
 theorem C02_world_stable {w w' : World} (hi : Inv w) {id x : Ident} (hne : x ≠ id) :
@@ -319,3 +336,5 @@ end Brood
 #print axioms Brood.C02_world_dead_forever
 #print axioms Brood.C02_world_never_reissued
 #print axioms Brood.C02_world_stable
+#print axioms Brood.C02_world_dead_in_copies
+#print axioms Brood.C02_world_dead_after_clone_from
